@@ -153,6 +153,11 @@ func (c13) Gen(r *world.Rng, tier string, n int) interface{} {
 			sc.Ticks = append(sc.Ticks, uint64(r.Range(1, 3000)))
 		}
 	}
+	if sc.Prog != "structured" && sc.Prog != "pfx" && r.Chance(1, 30) {
+		// a Run that has been going for a long time (hundreds of thousands of Steps) when the cancellation
+		// comes: the delay is bounded, not proportional to how long the Run has lasted
+		sc.Ticks = []uint64{uint64(r.Range(300000, 1200000))}
+	}
 	if sc.Prog == "structured" && r.Chance(1, 2) {
 		// cancellation landing exactly around the Step that halts / reaches the breakpoint
 		m := c13Machine(sc)
@@ -721,7 +726,11 @@ func c13Free(sc *C13Sc, env *Env) *Violation {
 		}
 		go func() {
 			<-started
-			for k := 0; k < sc.FreeSpin; k++ {
+			spin := sc.FreeSpin
+			if runtime.GOMAXPROCS(0) < 2 && spin > 10 {
+				spin = 10 // (on one processor every yield hands Run a whole time slice)
+			}
+			for k := 0; k < spin; k++ {
 				runtime.Gosched()
 			}
 			cancel()
@@ -804,6 +813,21 @@ func c13Reuse(sc *C13Sc, env *Env) *Violation {
 		st.IR.Lo, want.IR.Lo = 0, 0
 		if st != want {
 			return viol("reuse-error-value", "round %d: Run with a live context ended in a different state than repeated Step:%s", i, world.DiffStates(want, st, true))
+		}
+		if i%8 == 3 {
+			// the CPU has just halted (the halted indication is still set); the host loads PC with the long
+			// program and calls Run with a context that is ALREADY cancelled: the context's error - or, if Run
+			// got through the whole program before it noticed, nil on the executed HALT. Nothing else.
+			ctxC, cancelC := mk()
+			cancelC()
+			m.CPU.States = world.Regs{PC: 0x0200, SP: 0xf000}.States()
+			errC := m.CPU.Run(ctxC)
+			stC := m.CPU.States
+			stC.IR.Lo = 0
+			if !(errC != nil && errors.Is(errC, ctxC.Err())) && !(errC == nil && stC == want && m.CPU.HALT) {
+				return viol("reuse-error-value", "round %d: Run on a CPU that had halted before, with an already cancelled context and PC on a fresh program, returned %v at PC=%04x HALT=%t: neither the context's error nor the program's executed HALT", i, errC, stC.PC, m.CPU.HALT)
+			}
+			env.Fire("run-with-cancelled-context-on-a-halted-cpu")
 		}
 	}
 	// fork: a device callback copies the CPU value while Run is in progress and gives the copy a memory
